@@ -6,7 +6,7 @@ from .c01 import merge_stats
 
 RULE = ('random stacks of 1-6 layers (Source heads with constructor arguments, Transforms with private parameters, '
         'constructor arguments/defaults, __inherit__ lists / True / __exclude__, @optional marks, redefinition of the key, '
-        'Apply, CacheToRam) built through the public metaclass API with uninterpreted functions; observed: construction '
+        'Apply, CacheToRam) built through the public metaclass API, half of those with >= 3 layers in a random bracketing / flavour (Chain, >>, LazyChain; sub-chains at any position), with uninterpreted functions; observed: construction '
         'error, dir, and for 8 names the signature, the symbolic value or the exception class; compared with the Lean '
         'model CM.Model.Stack (correspondence) and with the Python reference resolver (direct oracle). Non-trivial: >= 2 '
         'layers, constructs, >= 2 exposed fields; distinct by JSON of the stack')
@@ -34,7 +34,7 @@ def run(tier, seed, res, lean, opts=None, pid='C02'):
         'programs': stats['stacks'], 'disagreements_checked': len(model_bad) + len(oracle_bad),
         'samples': [o[3] for o in outs[:1] if o[3]] or [{'note': 'no sample with >= 3 layers in the first shard'}],
         'distribution': {k: stats[k] for k in ('layers', 'kinds', 'construct_err', 'dependency_error', 'ok',
-                                               'optional_marks', 'quietly_dropped', 'fields_checked')},
+                                               'optional_marks', 'quietly_dropped', 'fields_checked', 'nested', 'nested_unbuildable') if k in stats},
     })
 
 
